@@ -7,5 +7,6 @@ INVARIANT RefusedWhole
 INVARIANT NeverIgnored
 INVARIANT DecideFirst
 INVARIANT WritesBeforePoll
+INVARIANT WritesBeforeReady
 PROPERTY WriteOnce
 CHECK_DEADLOCK FALSE
